@@ -120,8 +120,10 @@ def run(ck, rng, tier):
         # y scaling does not change a PLS prediction)
         oxs, oys = 1, 0
         if algo == 0 and ny >= 2 and yunit == 1.0:      # (responses in units of 1e-6 are zeroed by the y autoscaling guard: left to C10/C18)
-            oys = 1 if c < len(FORCED) else rng.choice((0, 1, 1, 2))
+            oys = rng.choice((0, 1, 1, 2))
             oxs = rng.choice((1, 1, 0, 2))
+            if c < len(FORCED):     # every run: y scaling on, and x / y options that differ in the bootstrap scheme
+                oxs, oys = {"loo": (1, 1), "kfold": (0, 1), "boot": (1, 2)}[scheme]
         opts = "opts %d %d\n" % (oxs, oys)
         ck.count("learner scaling options x=%d y=%d" % (oxs, oys))
         nth = rng.choice((1, 2, 3, 4, 8))
